@@ -35,6 +35,18 @@ CHECKS = {
             "Sends interleaved with data_to_send(a) over all amount classes; drain lengths, byte-exact concatenation, decoded message sequence and state are compared with a twin.", "5/C12"),
     "C19": ("exploration", "isolated vs interleaved per-call transcripts (incl. one thread per session), direct registration-scope checks",
             "Sequences with registrations of harness-defined custom control/filter/credential types on every subset of sessions are run alone and interleaved under >= 23 schedules each; any cross-session influence changes a transcript.", "5/C19"),
+    "C13": ("exploration", "round trip filter -> text -> filter with dataclass equality + strict independent RFC 4515 recogniser of the text form",
+            "Trees of all 10 kinds with hostile value octets at component boundaries (incl. values that are themselves filter text); str(f) must re-parse to f and be a strict RFC 4515 sentence with every special octet escaped.", "5/C13"),
+    "C14": ("exploration", "differential on grammar sentences: library parser vs independent RFC 4515 reference parser vs generating tree, plus strict RFC 4511 decode of the encoded SearchRequest",
+            "Sentences are rendered from trees with every free choice of the grammar (hex case, raw vs escaped octets, three extensible forms, ':dn' in any case, tolerated space decoration, nesting to 150).", "5/C14"),
+    "C15": ("fault_enumeration", "fault enumeration on text: every single-character edit of sentences + random/unbalanced/deep inputs; outcome-class, offset-bounds, RFC 4512 recogniser and re-parse oracles",
+            "Exhaustive per sentence over deletion and replacement/insertion with 32 structural and control characters; nesting to 100000 levels; lone surrogates counted separately.", "5/C15"),
+    "C16": ("exploration", "round trip schema definition -> text -> definition with dataclass equality under a CPU watchdog",
+            "Valid definitions of the three classes with descriptions/extension values weighted to quote, backslash, pipe, dollar, braces, newline, literal escape look-alikes and non-BMP text.", "5/C16"),
+    "C17": ("exploration", "differential on grammar sentences vs an independent cursor-based RFC 4512 parser; totality on random strings and all single-character edits",
+            "Every SP/WSP site is rendered with independent widths, lists single or parenthesised, X-/x- extensions, quoted SYNTAX; for non-sentences only a definition or ValueError is acceptable.", "5/C17"),
+    "C18": ("exploration", "cost monitor: deterministic sys.monitoring event counts + CPU time over doubling input families, local-degree verdict; captured regexes driven directly",
+            "74 hand-built hostile families, thousands of automatically pumped-and-broken sentences/messages, and every regex compiled on behalf of sansldap (captured by wrapping re._compile) are swept to n=4096 or the cost cap; a violation needs the cap below n=4096 with local degree > 8, reproduced.", "5/C18"),
 }
 
 NOT_YET = {}
